@@ -20,10 +20,19 @@ type pesScenario struct {
 // twinPESHeader builds the on-wire PES header for a header struct the way ISO 13818-1 2.4.3.6 lays it out, including what
 // the library's writer does not support (CRC, header stuffing, any PES_packet_length).  It only builds stimuli: every
 // vector it produces is re-derived by TLC (PESEncode.tla) before anything is judged.
+// noOptionalHeader: the stream ids whose PES packets carry no optional header (ISO/IEC 13818-1 2.4.3.7)
+func noOptionalHeader(sid uint8) bool {
+	switch sid {
+	case 0xbc, 0xbe, 0xbf, 0xf0, 0xf1, 0xf2, 0xf8, 0xff:
+		return true
+	}
+	return false
+}
+
 func twinPESHeader(h *astits.PESHeader, plen, hstuff int) []byte {
 	b := []byte{0, 0, 1, h.StreamID, byte(plen >> 8), byte(plen)}
 	o := h.OptionalHeader
-	if o == nil || h.StreamID == 190 || h.StreamID == 191 {
+	if o == nil || noOptionalHeader(h.StreamID) {
 		return b
 	}
 	bit := func(v bool) byte {
@@ -333,7 +342,7 @@ func runPES(line []byte, rec *recorder) {
 			}
 			pvec("length-longer", h, ex+r.rangeInt(1, 50), 0, av)
 			// no optional header
-			h2 := &astits.PESHeader{StreamID: uint8(r.pick(190, 191))}
+			h2 := &astits.PESHeader{StreamID: uint8(r.pick(190, 191, 0xbc, 0xf0, 0xf1, 0xf2, 0xf8, 0xff))}
 			pvec("length-exact", h2, av, 0, av)
 			pvec("length-zero", h2, 0, 0, av)
 		}
